@@ -43,7 +43,7 @@ def clean():
 
 
 def neutral():
-    rc, o = sh('/venv/bin/python -m pjx.neutral')
+    rc, o = sh('/venv/bin/python -m pjx.neutral --no-corpus')
     print('NEUTRAL (in-repo rewrites):', o.strip().splitlines()[-3:])
 
 
